@@ -526,17 +526,35 @@ pub fn check_c05(ctx: &Ctx, out: &mut Outcome) {
     let n = grid.len();
     let workers = ctx.workers.max(1);
     let chunks: Vec<Vec<(usize, e6::Call)>> = (0..workers).map(|w| grid.iter().cloned().enumerate().filter(|(i, _)| i % workers == w).collect()).collect();
+    // the grid is journaled like the generated engines: a call that aborts the process (failed
+    // allocation, abort in the allocator) is attributed by the supervising parent
+    let jdir = if std::env::var_os("VH_NO_JOURNAL").is_some() { None } else { Some(format!("{}/work/journal", ctx.verif_dir)) };
+    if let Some(d) = &jdir {
+        let _ = std::fs::create_dir_all(d);
+    }
+    let (jdir, prop_id) = (&jdir, ctx.id.as_str());
     let results: Vec<(u64, u64, std::collections::BTreeMap<String, u64>, Option<(usize, e6::Call, Violation)>)> = std::thread::scope(|sc| {
         let hs: Vec<_> = chunks
             .iter()
-            .map(|chunk| {
+            .enumerate()
+            .map(|(w, chunk)| {
                 sc.spawn(move || {
                     crate::inst::thread_init();
+                    let jpath = jdir.as_ref().map(|d| crate::runner::journal_path(d, prop_id, 100 + w));
+                    let mut jfile = jpath.as_ref().and_then(|p| std::fs::OpenOptions::new().create(true).write(true).truncate(true).open(p).ok());
                     let mut nt = 0u64;
                     let mut ev = 0u64;
                     let mut outcomes: std::collections::BTreeMap<String, u64> = Default::default();
                     let mut first: Option<(usize, e6::Call, Violation)> = None;
                     for (i, c) in chunk {
+                        if let Some(f) = jfile.as_mut() {
+                            use std::io::{Seek, Write};
+                            let mut body = serde_json::to_vec(&json!({"property": prop_id, "engine": "e6", "case": c, "observed": "journal entry: the process died while executing this call"})).unwrap_or_default();
+                            body.push(b'\n');
+                            let _ = f.seek(std::io::SeekFrom::Start(0));
+                            let _ = f.write_all(&body);
+                            let _ = f.set_len(body.len() as u64);
+                        }
                         let (r, v) = e6::judge(c);
                         ev += 1;
                         if e6::has_boundary(c) {
@@ -553,6 +571,10 @@ pub fn check_c05(ctx: &Ctx, out: &mut Outcome) {
                                 first = Some((*i, c.clone(), v));
                             }
                         }
+                    }
+                    drop(jfile);
+                    if let Some(p) = &jpath {
+                        let _ = std::fs::remove_file(p);
                     }
                     (ev, nt, outcomes, first)
                 })
@@ -747,6 +769,10 @@ enum MirrorPr {
 
 /// structural laws of `PutResult` over the complete small domain (payloads 0..3): equality is
 /// exactly "same variant, equal payloads", Clone and Copy preserve it, Debug does not panic
+/// a key type with float equality (NaN != NaN) for the PutResult laws
+#[derive(Clone, Copy, Debug, PartialEq)]
+struct FKey(f64);
+
 pub fn check_putresult_laws(ctx: &Ctx, out: &mut Outcome) {
     use caches::PutResult;
     let mut vals: Vec<(PutResult<u16, u32>, MirrorPr)> = vec![(PutResult::Put, MirrorPr::Put)];
@@ -780,6 +806,46 @@ pub fn check_putresult_laws(ctx: &Ctx, out: &mut Outcome) {
     if r.is_err() {
         bad = Some("a PutResult law check panicked".to_string());
     }
+    // payloads whose own `==` is not reflexive (NaN) or not identity (0.0 == -0.0): "equal exactly
+    // when the same variant with equal payloads" is what a derived PartialEq on a mirror type says
+    #[derive(Clone, Copy, Debug, PartialEq)]
+    enum MirrorF {
+        Put,
+        Update(f64),
+        Evicted(f64, f64),
+        EvictedAndUpdate((f64, f64), f64),
+    }
+    let fs = [0.0f64, -0.0, 1.5, f64::NAN];
+    let mut fvals: Vec<(PutResult<FKey, f64>, MirrorF)> = vec![(PutResult::Put, MirrorF::Put)];
+    for &a in &fs {
+        fvals.push((PutResult::Update(a), MirrorF::Update(a)));
+        for &k in &fs {
+            fvals.push((PutResult::Evicted { key: FKey(k), value: a }, MirrorF::Evicted(k, a)));
+            for &u in &fs {
+                fvals.push((PutResult::EvictedAndUpdate { evicted: (FKey(k), a), update: u }, MirrorF::EvictedAndUpdate((k, a), u)));
+            }
+        }
+    }
+    let r2 = std::panic::catch_unwind(std::panic::AssertUnwindSafe(|| {
+        for (a, ma) in fvals.iter() {
+            let c = a.clone();
+            let d = *a;
+            let same: &PutResult<FKey, f64> = a; // the very same object on both sides
+            if (a == same) != (ma == ma) || (c == *a) != (ma == ma) || (d == *a) != (ma == ma) {
+                bad.get_or_insert(format!("{:?}: compared with itself / its clone / its copy gives ({}, {}, {}), structurally it is {}", ma, a == same, c == *a, d == *a, ma == ma));
+            }
+            for (b, mb) in fvals.iter() {
+                pairs += 1;
+                if (a == b) != (ma == mb) {
+                    bad.get_or_insert(format!("{:?} == {:?} is {}, structurally it is {}", ma, mb, a == b, ma == mb));
+                }
+            }
+        }
+    }));
+    if r2.is_err() {
+        bad = Some("a PutResult law check panicked".to_string());
+    }
+    out.coverage.insert("putresult_values_f64_payloads".into(), json!(fvals.len()));
     out.coverage.insert("putresult_pairs_exhaustive".into(), json!(pairs));
     out.coverage.insert("putresult_values".into(), json!(vals.len()));
     if let Some(msg) = bad {
@@ -872,11 +938,45 @@ pub fn check_ctor_caps_for(ctx: &Ctx, out: &mut Outcome, prop_id: &'static str) 
 /// C08: quota == floor(size x recent ratio), ghost bound == floor(size x ghost ratio), for
 /// every size 1..=128 and every ratio q/size and k/100, through both construction paths
 pub fn check_2q_quota_grid(ctx: &Ctx, out: &mut Outcome) {
+    check_2q_quota_grid_for(ctx, out, "C08")
+}
+
+pub fn check_2q_quota_grid_for(ctx: &Ctx, out: &mut Outcome, prop_id: &'static str) {
+    use caches::lru::{DEFAULT_2Q_GHOST_RATIO, DEFAULT_2Q_RECENT_RATIO};
     use caches::*;
     let mut n_checked = 0u64;
     let mut bad: Option<String> = None;
     let r = std::panic::catch_unwind(std::panic::AssertUnwindSafe(|| {
-        for size in 1usize..=128 {
+        // the convenience constructors: the ratio they do not take is the crate's exported default
+        for size in (1usize..=128).chain([1000, 4096, 4097, 65_537, 1_000_003]) {
+            let fl = |r: f64| (size as f64 * r).floor() as usize;
+            let ratios: Vec<f64> = (0..=20).map(|k| k as f64 / 20.0).chain([1.0 / 3.0, 0.29, 0.57, 0.58]).collect();
+            let mut see = |how: String, c: Result<TwoQueueCache<u64, u64>, caches::lru::CacheError>, q: usize, g: usize| {
+                n_checked += 1;
+                match c {
+                    Ok(c) => {
+                        let got = (c.cap(), c.verif_recent_quota(), c.verif_ghost().cap(), c.verif_recent().cap(), c.verif_frequent().cap());
+                        if (got.0, got.1, got.2) != (size, q, g) || got.3 < size || got.4 < size {
+                            bad.get_or_insert(format!("{how}: (cap, quota, ghost bound, recent list cap, frequent list cap) = {:?}, expected cap {size}, quota {q}, ghost bound {g}, list caps >= {size}", got));
+                        }
+                    }
+                    Err(_) => {
+                        if g >= 1 {
+                            bad.get_or_insert(format!("{how}: rejected although floor(size x ghost ratio) = {g}"));
+                        }
+                    }
+                }
+            };
+            see(format!("TwoQueueCache::new({size})"), TwoQueueCache::new(size), fl(DEFAULT_2Q_RECENT_RATIO), fl(DEFAULT_2Q_GHOST_RATIO));
+            see(format!("TwoQueueCacheBuilder::new({size}).finalize()"), TwoQueueCacheBuilder::new(size).finalize(), fl(DEFAULT_2Q_RECENT_RATIO), fl(DEFAULT_2Q_GHOST_RATIO));
+            for &r in &ratios {
+                see(format!("TwoQueueCache::with_recent_ratio({size}, {r})"), TwoQueueCache::with_recent_ratio(size, r), fl(r), fl(DEFAULT_2Q_GHOST_RATIO));
+                see(format!("TwoQueueCache::with_ghost_ratio({size}, {r})"), TwoQueueCache::with_ghost_ratio(size, r), fl(DEFAULT_2Q_RECENT_RATIO), fl(r));
+                see(format!("TwoQueueCache::builder({size}).set_ghost_ratio({r})"), TwoQueueCache::from_builder(TwoQueueCache::<u64, u64>::builder(size).set_ghost_ratio(r)), fl(DEFAULT_2Q_RECENT_RATIO), fl(r));
+                see(format!("TwoQueueCache::builder({size}).set_recent_ratio({r})"), TwoQueueCache::from_builder(TwoQueueCache::<u64, u64>::builder(size).set_recent_ratio(r)), fl(r), fl(DEFAULT_2Q_GHOST_RATIO));
+            }
+        }
+        for size in (1usize..=128).chain([1000, 4096, 4097, 65_537]) {
             let mut ratios: Vec<f64> = (0..=size).map(|q| q as f64 / size as f64).collect();
             ratios.extend((0..=100).map(|k| k as f64 / 100.0));
             for (j, &rr) in ratios.iter().enumerate() {
@@ -908,7 +1008,7 @@ pub fn check_2q_quota_grid(ctx: &Ctx, out: &mut Outcome) {
     }
     out.coverage.insert("quota_grid_constructions".into(), json!(n_checked));
     if let Some(msg) = bad {
-        let v = Violation { prop: "C08", step: 0, msg: format!("quota / ghost bound is not floor(size x ratio): {}", msg), sig: "ctor/-/quota".into() };
+        let v = Violation { prop: prop_id, step: 0, msg: format!("quota / ghost bound is not floor(size x ratio): {}", msg), sig: "ctor/-/quota".into() };
         if ctx.known.matches(&ctx.id, &v.sig).is_none() {
             let path = write_replay(&ctx.replay_dir(), &ctx.id, "quotagrid", json!({"grid": "size 1..=128 x ratios q/size, k/100"}), &v);
             out.violations.push((path, v.msg));
